@@ -22,7 +22,7 @@ MUTANTS = [
            lambda seg: 'txn.store_model_entry'), 'K2', 'wrapper calls a different method'),
     Mutant('index_first', D, edit_node('LocalModelDirectoryDatabaseTransaction.store_model', stmt_containing('datasets_path.mkdir(parents=True, exist_ok=True)'),
            lambda seg: seg + '\n            h_dir.mkdir(parents=True, exist_ok=True)'), 'K3', 'index directory created before the content'),
-    Mutant('model_before_data', D, edit_node('LocalModelDirectoryDatabaseTransaction.store_model', compound_containing('if h_dir.is_dir()', ast.If),
+    Mutant('model_before_data', D, edit_node('LocalModelDirectoryDatabaseTransaction.store_model', compound_containing('if hpath is not None', ast.If),
            lambda seg: "model_path.mkdir(exist_ok=True)\n        write_model(model, model_path / ('model' + model.filename_extension), force=True)\n        " + seg), 'K3',
            'model file (short-circuit marker) written before the dataset'),
     Mutant('truncate_annotations', C, edit_node('LocalDirectoryContext.store_annotation', lambda n, seg: isinstance(n, ast.Name) and seg == 'tmp_path' and isinstance(n.ctx, ast.Load),
